@@ -1,46 +1,67 @@
 """C13 - configuration models preserve degrees and hyperedge sizes.
 
-Correspondence: every random draw of the real run (np.random.randint / np.random.rand for
-configuration_model, random.randint / random.choice for directed_configuration_model) is recorded by
-replacing the module attributes the code looks up (no hook in the repo), the draw list is replayed in
-the Lean model (lean/Hgxv/Model/C13.lean through lean/Driver/C13.lean) and the returned hyperedge
-list must coincide.  Draws come either from the real generators (seeded) or from a biased source of
-the harness (same contract: indices in range, floats in [0,1)), so that rare outcomes (i == j, the
-same pair again, long runs of one coin) are explored as well.
+Inputs are OBJECTS reached through histories: a Hypergraph / DirectedHypergraph (weighted or not, with metadata)
+is built by a list of operations (constructor list, add_edge / add_edges, temporary hyperedges and nodes that are
+removed again so that internal ids have gaps, removal + re-insertion, copies whose other half is edited
+afterwards), node labels are fresh equal objects of many types in every call (small / huge / negative ints,
+floats, strings whose order is not the numeric one, tuples), and a SESSION applies several calls to the same
+object with edits (also count-preserving ones) in between.  Every call is one case.
 
-Property oracles (independent Python on the real outputs, degrees counted as SETS of incident
-hyperedges from get_edges()): never a higher degree, equality and the size multiset when the number
-of hyperedges is preserved, untouched sizes intact; in/out degree and (|S|,|T|) shapes for the
-directed model."""
+Correspondence: every random draw of the real run (np.random.randint / np.random.rand for configuration_model,
+random.randint / random.choice for directed_configuration_model) is recorded by replacing the module attributes
+the code looks up (no hook in the repo), the draw list is replayed in the Lean model (lean/Hgxv/Model/C13.lean
+through lean/Driver/C13.lean, labels as ranks in sorted order - justified by C13_relabel) on the hyperedge listing
+the object has at the time of the call, and the returned hyperedge list must coincide.  Draws come from the real
+generators (seeded), from a biased in-contract source of the harness (i == j, the same pair again, long runs of one
+coin, long streaks of inadmissible pairs) or from a script (exhaustive walk of the draw tree of small inputs).
+
+Property oracles (independent Python on the real objects, on the raw labels; degrees counted as SETS of incident
+hyperedges from get_edges() and, a second time, read through degree(node, size=k) / get_sizes() /
+get_source_edges / get_target_edges): every node of the output is a node of the input, never a higher degree,
+equality and the size (shape) multiset when the number of hyperedges is preserved, other sizes intact, a
+hypergraph is returned at all (the two documented exceptions apart).  The oracles go on after the correspondence
+broke, so that a failing input of the property is reported whenever the run reaches one."""
+import collections
 import contextlib
 import io
 import random as pyrandom
 import signal
+import warnings
+import zlib
 from collections import Counter
 
 import hgxv
 
-RULE = ("undirected: random Hypergraph instances (3-10 nodes from a sparse integer or string universe, 2-12 distinct "
-        "duplicate-free hyperedges of sizes 1-5 drawn from 1-3 size classes with forced overlaps, sometimes weighted / "
-        "with isolated nodes), n_steps in {0,1,7,50}, label in {edge,stub}, detailed in {True,False}, plain call / "
-        "size=s / order=s-1 with s a present size (rarely an absent one: the call raises), 3 (quick) or 6 (thorough) "
-        "draw sources per input: real numpy generator seeded, or the harness' biased in-contract source; directed: "
-        "random DirectedHypergraph instances (3-9 nodes, 2-10 hyperedges, duplicate-free sides, mostly disjoint and "
-        "non-empty), draws from random.* seeded or biased.  A case is distinct by (canonical hyperedge list, "
-        "parameters, draw list); non-trivial when the returned hyperedge set differs from the input's")
-ASSUMPTIONS = ["hyperedges are duplicate-free node tuples (node sets); labels are mapped to their rank in sorted order",
+RULE = ("objects built by histories (constructor list / add_edge / add_edges, 35 % with temporary hyperedges or nodes "
+        "removed again, removal + re-insertion, copies edited afterwards; 30 % weighted: ints >= 2, floats, 0, "
+        "accumulated; node / hyperedge / hypergraph metadata), labels = fresh equal objects per call from 11 universes "
+        "(ints, huge / negative ints, floats, ints next to floats, strings, numeric strings, 3 tuple families); "
+        "undirected: 3-10 nodes, 2-12 hyperedges of sizes 1-5 from 1-3 size classes with forced overlaps and (30 %) "
+        "nested hyperedges, n_steps in {0,1,7,50, default}, label in {edge,stub}, detailed in {True,False}, plain / "
+        "size=s / order=s-1 (rarely an absent size: the call raises), several calling styles; directed: 3-9 nodes, 2-10 "
+        "hyperedges, mostly disjoint non-empty sides; 25 % of the inputs are sessions of 2-3 calls on one object with "
+        "edits in between (swap of one hyperedge = same count, add, remove, rebuilt object, none; edits of the returned "
+        "object); 3 (quick) / 6 "
+        "(thorough) draw sources per input: real generator seeded, the harness' biased in-contract source, exhaustive "
+        "scripts for small inputs.  A case = one call; distinct by (hyperedge listing, parameters, draws, history); "
+        "non-trivial when the returned hyperedge set differs from the input's")
+ASSUMPTIONS = ["hyperedges are duplicate-free node tuples (node sets); labels are mapped to their rank in sorted order "
+               "(C13_relabel / C13_directed_relabel: the model commutes with every strictly increasing relabelling)",
                "the theorems speak of runs that return: an exhausted draw list is `diverge` (termination of the "
                "`while len(f1) != len(f2)` resampling loop is probabilistic), an exception of the code "
                "(np.random.randint(0,0,2) when no hyperedge has the requested size, random.choice of an empty side) is "
-               "`raise` = no output",
-               "label='vertex' is outside the property (stub- or edge-labelled only)"]
+               "`raise` = no output; every other exception on an input with two or more hyperedges is a violation",
+               "label='vertex' is outside the property (stub- or edge-labelled only)",
+               "weights and metadata of the input play no role (the model is a function of the hyperedge listing only)"]
 TRUSTED = ["contracts of the samplers: np.random.randint(0,m,2) returns two indices < m, np.random.rand() a float in "
            "[0,1), random.randint(0,m-1) an index < m, random.choice(seq) an element of seq (its index is recorded)",
            "iteration order of the Python set `intersection` is irrelevant (remainder independent of it, results sorted)",
-           "RNG recording by attribute patching from the harness (np.random.randint/rand, random.randint/choice)"]
-BUDGET_S = {"quick": 45, "thorough": 780}
+           "RNG recording by attribute patching from the harness (np.random.randint/rand, random.randint/choice; other "
+           "samplers of both modules are watched: a call of one of them is a protocol difference)"]
+BUDGET_S = {"quick": 50, "thorough": 800}
 
 CALL_TIMEOUT = 6.0
+MODEL_OFF_AFTER = 12      # correspondence differences after which the model is no longer consulted (oracles go on)
 
 
 class _Timeout(BaseException):
@@ -63,7 +84,8 @@ def guarded(fn, secs=CALL_TIMEOUT):
     old = signal.signal(signal.SIGALRM, _alarm)
     signal.setitimer(signal.ITIMER_REAL, secs)
     try:
-        with contextlib.redirect_stdout(io.StringIO()):
+        with contextlib.redirect_stdout(io.StringIO()), warnings.catch_warnings():
+            warnings.simplefilter("ignore")
             return ("ok", fn())
     except _Timeout:
         return ("timeout", None)
@@ -74,16 +96,26 @@ def guarded(fn, secs=CALL_TIMEOUT):
         signal.signal(signal.SIGALRM, old)
 
 
+def crc(*parts):
+    return zlib.crc32(repr(parts).encode())
+
+
 # ------------------------------------------------------------------------------------------
 # draw sources
 
+NP_WATCHED = ("shuffle", "permutation", "choice", "random", "random_sample", "uniform", "binomial", "normal",
+              "default_rng", "RandomState", "sample", "ranf", "bytes")
+PY_WATCHED = ("shuffle", "sample", "random", "randrange", "choices", "uniform", "getrandbits", "Random", "SystemRandom")
+
+
 class NumpyDraws:
-    """records (and in mode 'adv' supplies) the draws of np.random.randint / np.random.rand"""
+    """records (and in modes 'adv' / 'script' supplies) the draws of np.random.randint / np.random.rand"""
 
     def __init__(self, mode, seed, script=None, streak=0):
         self.mode, self.seed, self.log = mode, seed, []
         self.script, self.pos = list(script or []), 0
         self.streak = streak   # adv mode: the first `streak` index pairs are forced to be two different positions
+        self.other = []        # calls of samplers the model does not document
 
     def next_scripted(self, nopts):
         if self.pos >= len(self.script):
@@ -142,14 +174,31 @@ class NumpyDraws:
             return res
 
         np.random.randint, np.random.rand = randint, rand
+        self.watched = []
+        for name in NP_WATCHED:
+            realf = getattr(np.random, name, None)
+            if realf is None:
+                continue
+            self.watched.append((name, realf))
+            setattr(np.random, name, self._watch("np.random." + name, realf))
         return self
+
+    def _watch(self, name, realf):
+        def f(*a, **k):
+            self.other.append(name)
+            return realf(*a, **k)
+        return f
 
     def __exit__(self, *exc):
         self.np.random.randint, self.np.random.rand = self.real
+        for name, realf in self.watched:
+            setattr(self.np.random, name, realf)
         self.np.random.set_state(self.state)
 
     def wire(self, m):
         """draw list in wire form, or (None, why) when a call is not the one the model documents"""
+        if self.other:
+            return None, f"{self.other[0]} called ({len(self.other)} calls of samplers the model does not document)"
         out = []
         for name, a, k, res in self.log:
             if name == "randint":
@@ -170,7 +219,7 @@ class PyDraws:
     """records (and in mode 'adv' supplies) the draws of random.randint / random.choice"""
 
     def __init__(self, mode, seed):
-        self.mode, self.seed, self.log = mode, seed, []
+        self.mode, self.seed, self.log, self.other = mode, seed, [], []
 
     def __enter__(self):
         self.real = (pyrandom.randint, pyrandom.choice)
@@ -207,13 +256,28 @@ class PyDraws:
             return res
 
         pyrandom.randint, pyrandom.choice = randint, choice
+        self.watched = []
+        for name in PY_WATCHED:
+            realf = getattr(pyrandom, name)
+            self.watched.append((name, realf))
+            setattr(pyrandom, name, self._watch("random." + name, realf))
         return self
+
+    def _watch(self, name, realf):
+        def f(*a, **k):
+            self.other.append(name)
+            return realf(*a, **k)
+        return f
 
     def __exit__(self, *exc):
         pyrandom.randint, pyrandom.choice = self.real
+        for name, realf in self.watched:
+            setattr(pyrandom, name, realf)
         pyrandom.setstate(self.state)
 
     def wire(self, m):
+        if self.other:
+            return None, f"{self.other[0]} called ({len(self.other)} calls of samplers the model does not document)"
         out = []
         for ent in self.log:
             if ent[0] == "randint":
@@ -228,40 +292,102 @@ class PyDraws:
 
 
 # ------------------------------------------------------------------------------------------
-# generators
+# labels: JSON-safe encodings, a fresh equal object at every use
 
-def gen_labels(rng, n):
-    if rng.random() < 0.3:
-        pool = [chr(97 + i) * k for i in range(12) for k in (1, 2)] + ["E1", "N0", "Z"]
-        return sorted(rng.sample(pool, n))
-    return sorted(rng.sample(range(0, 40), n))
+def enc_label(x):
+    if isinstance(x, tuple):
+        return {"t": [enc_label(c) for c in x]}
+    if isinstance(x, float):
+        return {"f": x.hex()}
+    return x          # int (any size), str
 
 
-def gen_undirected(rng):
-    n = rng.randint(3, 10)
-    labels = gen_labels(rng, n)
+def dec_label(j):
+    """a new object on every call wherever CPython lets equal objects be distinct"""
+    if isinstance(j, dict):
+        if "t" in j:
+            return tuple(dec_label(c) for c in j["t"])
+        return float.fromhex(j["f"])
+    if isinstance(j, str):
+        return "".join(list(j)) if len(j) >= 2 else j
+    return int(str(j))
+
+
+def _pool(kind):
+    if kind == "int":
+        return list(range(0, 40))
+    if kind == "str":
+        return [chr(97 + i) * k for i in range(12) for k in (1, 2)] + ["E1", "N0", "Z", ""]
+    if kind == "numstr":          # sorted as strings: '10' < '100' < '2' < '33' < '9'
+        return [str(i) for i in (0, 2, 3, 9, 10, 11, 20, 33, 100, 101, 1000, 5, 77, 800)]
+    if kind == "bigint":          # neighbours that collapse under float64 / int64
+        return [b + d for b in (2 ** 53, 2 ** 63, 2 ** 64, 10 ** 20) for d in range(-2, 5)] + [0, 1, 7, 300]
+    if kind == "negbig":
+        return ([-3, -1, 0, 5, 1000] + [2 ** 63 + d for d in range(-1, 4)] + [-(2 ** 63) - d for d in range(0, 4)]
+                + [-(2 ** 53) - d for d in range(0, 3)])
+    if kind == "float":
+        return [0.0, 0.5, 1.5, 2.25, 1e-3, 0.1, 0.2, 0.1 + 0.2, 0.3, 1e18, 1e18 + 256, -2.5, 1e-300, 2.0 ** 53,
+                2.0 ** 53 + 2, 3.0, 1e300, float("inf")]
+    if kind == "intfloat":        # ints above 2**53 next to floats
+        return [2 ** 53 + 1, 2 ** 53 + 2, 2 ** 53 + 3, 0.5, 1.5, 7, 2.25, 3, 10 ** 17 + 1, 10 ** 17 + 2, -0.75, 12,
+                2 ** 63 + 1, 6.5]
+    if kind == "tuple":           # grid coordinates
+        return [(i, j) for i in range(4) for j in range(4)]
+    if kind == "tuple2":          # (layer, id)
+        return [(s, i) for s in ("a", "b", "bb") for i in (1, 2, 10, 300)] + [("a", 2 ** 60), ("c", 0)]
+    if kind == "ntuple":          # tuples of different lengths
+        return [(), (0,), (1,), (1, 2), (1, 2, 3), (2, 1), (0, 0, 0, 1), (2,), (1, 1), (3, 0), (0, 1), (5,), (1, 2, 4)]
+    raise ValueError(kind)
+
+
+LABEL_KINDS = ["int", "int", "int", "str", "numstr", "bigint", "negbig", "float", "intfloat", "tuple", "tuple2", "ntuple"]
+
+
+def gen_labels(rng, n, kind=None):
+    """n distinct mutually comparable labels, sorted (index = rank), JSON-encoded"""
+    kind = kind or rng.choice(LABEL_KINDS)
+    labels = sorted(rng.sample(_pool(kind), n))
+    return kind, [enc_label(x) for x in labels]
+
+
+# ------------------------------------------------------------------------------------------
+# generators of target contents (index space: node = rank of its label)
+
+def gen_undirected(rng, n):
     classes = rng.sample([1, 2, 2, 3, 3, 4, 5], rng.randint(1, 3))
     m = rng.randint(2, 12)
+    nodes = list(range(n))
     edges, seen = [], set()
-    core = rng.sample(labels, min(n, rng.randint(2, 4)))   # forces overlaps
+    core = rng.sample(nodes, min(n, rng.randint(2, 4)))   # forces overlaps
     for _ in range(m * 3):
         if len(edges) >= m:
             break
         k = min(n, rng.choice(classes))
-        pool = core if (rng.random() < 0.35 and len(core) >= k) else labels
+        pool = core if (rng.random() < 0.35 and len(core) >= k) else nodes
         e = tuple(sorted(rng.sample(pool, k)))
         if e not in seen:
             seen.add(e)
             edges.append(e)
+    if rng.random() < 0.3:
+        # nested hyperedges: strict subsets / supersets of present ones, listed before or after them
+        for _ in range(rng.randint(1, 3)):
+            e = rng.choice(edges)
+            if len(e) >= 2 and rng.random() < 0.7:
+                f = tuple(sorted(rng.sample(e, rng.randint(1, len(e) - 1))))
+            else:
+                rest = [x for x in nodes if x not in e]
+                if not rest:
+                    continue
+                f = tuple(sorted(e + tuple(rng.sample(rest, rng.randint(1, min(2, len(rest)))))))
+            if f not in seen:
+                seen.add(f)
+                edges.insert(rng.randrange(len(edges) + 1), f)
     if len(edges) < 2:
-        for e in [tuple(sorted(labels[:2])), tuple(sorted(labels[1:3]))]:
+        for e in [(0, 1), (1, 2)]:
             if e not in seen:
                 seen.add(e)
                 edges.append(e)
-    weighted = rng.random() < 0.15
-    weights = [rng.choice([1, 2, 0.5, 3]) for _ in edges] if weighted else None
-    iso = [x for x in labels if rng.random() < 0.1]
-    return labels, edges, weights, iso
+    return [list(e) for e in edges]
 
 
 def gen_params(rng, edges):
@@ -277,14 +403,16 @@ def gen_params(rng, edges):
     else:
         absent = [s for s in range(1, 8) if s not in present]
         variant = {"size": rng.choice(absent)}
-    return {"n_steps": rng.choice([0, 1, 7, 7, 50, 50]), "label": rng.choice(["edge", "stub"]),
-            "detailed": rng.random() < 0.6, **variant}
+    params = {"n_steps": rng.choice([0, 1, 7, 7, 50, 50]), "label": rng.choice(["edge", "stub"]),
+              "detailed": rng.random() < 0.55, **variant}
+    if rng.random() < 0.03:
+        del params["n_steps"]        # the default (1000 steps)
+    return params
 
 
-def gen_directed(rng):
-    n = rng.randint(3, 9)
-    labels = gen_labels(rng, n)
+def gen_directed(rng, n):
     m = rng.randint(2, 10)
+    nodes = list(range(n))
     edges, seen = [], set()
     allow_empty = rng.random() < 0.06
     allow_overlap = rng.random() < 0.15
@@ -299,32 +427,238 @@ def gen_directed(rng):
             else:
                 b = 0
         if allow_overlap:
-            e = (tuple(sorted(rng.sample(labels, a))), tuple(sorted(rng.sample(labels, b))))
+            e = (tuple(sorted(rng.sample(nodes, a))), tuple(sorted(rng.sample(nodes, b))))
         else:
-            nodes = rng.sample(labels, a + b)
-            e = (tuple(sorted(nodes[:a])), tuple(sorted(nodes[a:])))
+            ns = rng.sample(nodes, a + b)
+            e = (tuple(sorted(ns[:a])), tuple(sorted(ns[a:])))
         if e not in seen:
             seen.add(e)
             edges.append(e)
-    iso = [x for x in labels if rng.random() < 0.1]
-    return labels, edges, iso
+    if len(edges) < 2:
+        for e in [((0,), (1,)), ((1,), (2,))]:
+            if e not in seen:
+                seen.add(e)
+                edges.append(e)
+    return [[list(s), list(t)] for s, t in edges]
+
+
+def ekey(kind, e):
+    return tuple(e) if kind == "cm" else (tuple(e[0]), tuple(e[1]))
+
+
+def new_edge(rng, kind, n, present, size=None):
+    """a hyperedge (index space) that is not in `present`, or None"""
+    for _ in range(20):
+        if kind == "cm":
+            k = size if size is not None and rng.random() < 0.6 else rng.randint(1, min(4, n))
+            e = sorted(rng.sample(range(n), min(n, k)))
+        else:
+            a = rng.randint(1, min(2, n - 1))
+            b = rng.randint(1, min(2, n - a))
+            ns = rng.sample(range(n), a + b)
+            e = [sorted(ns[:a]), sorted(ns[a:])]
+        if ekey(kind, e) not in present:
+            return e
+    return None
+
+
+def both_sides(kind, x, shadow):
+    """DirectedHypergraph.remove_node raises for a node that is source and target of one hyperedge (the hyperedge is
+    removed twice) - a matter of the container, not of this property: such removals are not generated"""
+    return kind == "dcm" and any(x in e[0] and x in e[1] for e in shadow.values())
+
+
+METAS = [{"w": 2}, {"weight": 3, "name": "x"}, {"color": "red"}, {"type": "t", "n": [1, 2]}, {}]
+WEIGHT_POOLS = {"int": [1, 2, 3, 5], "float": [0.5, 1.5, 2.0, 0.25, 3.7], "zero": [0, 2, 0.0, 1], "ones": [1, 1.0],
+                "mixed": [1, 2, 0.5, 3, 0, 4.0, 7]}
+
+
+def gen_history(rng, kind, n, n_labels, target, weighted):
+    """operations leading to an object whose hyperedges are `target` (index space); `weighted` = None or a pool name"""
+    wpool = WEIGHT_POOLS[weighted] if weighted else None
+    with_meta = rng.random() < 0.3
+    flavor = rng.choices(["plain", "gaps", "copy"], [50, 30, 20])[0]
+
+    def w():
+        return rng.choice(wpool) if wpool else (1 if rng.random() < 0.1 else None)
+
+    def md():
+        return rng.choice(METAS) if with_meta and rng.random() < 0.6 else None
+
+    ops = []
+    shadow = {}     # insertion-ordered content of the object under construction
+
+    def add(e):
+        ops.append(["add", e, w(), md()])
+        shadow[ekey(kind, e)] = e
+
+    def rm(e):
+        ops.append(["rm", e])
+        del shadow[ekey(kind, e)]
+
+    style = rng.choice(["ctor", "adds", "add", "add"])
+    tgt = [e for e in target]
+    if flavor != "plain":
+        rng.shuffle(tgt)
+    if style == "ctor" or (style == "adds" and flavor == "plain"):
+        ws = [rng.choice(wpool) for _ in tgt] if wpool else None
+        if style == "ctor":
+            ops.append(["new", bool(weighted), tgt, ws])
+        else:
+            ops.append(["new", bool(weighted), [], None])
+            ops.append(["adds", tgt, ws])
+        for e in tgt:
+            shadow[ekey(kind, e)] = e
+        tgt = []
+    else:
+        ops.append(["new", bool(weighted), [], None])
+    if with_meta and rng.random() < 0.5:
+        ops.append(["meta", "h", None, {"name": "input", "weighted": "yes"}])
+    for x in range(n, n_labels):
+        if rng.random() < 0.5:
+            ops.append(["addn", x, md()])     # isolated node
+    if flavor == "plain":
+        for e in tgt:
+            add(e)
+    else:
+        pending = list(tgt)
+        budget = rng.randint(2, 6)
+        while pending or budget > 0:
+            r = rng.random()
+            if pending and (r < 0.55 or budget <= 0):
+                add(pending.pop())
+                continue
+            budget -= 1
+            if r < 0.75:
+                e = new_edge(rng, kind, n_labels, shadow)      # a temporary hyperedge (may use the spare labels)
+                if e is not None:
+                    add(e)
+            elif r < 0.9 and shadow:
+                rm(rng.choice(list(shadow.values())))          # removed (re-inserted by the repair below when needed)
+            elif shadow:
+                x = rng.randrange(n_labels)                    # a node leaves with its hyperedges ...
+                if both_sides(kind, x, shadow):
+                    continue
+                ops.append(["rmn", x])
+                for k_, e in list(shadow.items()):
+                    if x in (e if kind == "cm" else e[0] + e[1]):
+                        del shadow[k_]
+                if rng.random() < 0.5:
+                    ops.append(["addn", x, md()])              # ... and comes back as an isolated node
+        want = {ekey(kind, e) for e in target}
+        for k_, e in list(shadow.items()):
+            if k_ not in want:
+                rm(e)
+        for e in target:
+            if ekey(kind, e) not in shadow:
+                add(e)
+        if wpool and rng.random() < 0.4 and shadow:
+            e = rng.choice(list(shadow.values()))
+            ops.append(["add", e, rng.choice(wpool), None])    # present already: its weight accumulates
+        if wpool and rng.random() < 0.3 and shadow:
+            ops.append(["setw", rng.choice(list(shadow.values())), rng.choice(wpool)])
+    if with_meta:
+        for x in rng.sample(range(n), min(n, 2)):
+            ops.append(["meta", "n", x, rng.choice(METAS)])
+        if shadow and rng.random() < 0.5:
+            ops.append(["meta", "e", rng.choice(list(shadow.values())), rng.choice(METAS)])
+    if flavor == "copy":
+        # the object handed to the model is one half of a copy; the other half is edited afterwards
+        ops.append(["copy", rng.choice(["use_copy", "use_orig"])])
+        for _ in range(rng.randint(1, 3)):
+            r = rng.random()
+            live = list(shadow.values())
+            if r < 0.5:
+                e = new_edge(rng, kind, n_labels, shadow)
+                if e is not None:
+                    ops.append(["oth", ["add", e, w(), None]])
+            elif r < 0.8 and live:
+                ops.append(["oth", ["rm", rng.choice(live)]])
+                break                                           # (a second removal of the same hyperedge would raise)
+            else:
+                x = rng.randrange(n)
+                if not both_sides(kind, x, shadow):
+                    ops.append(["oth", ["rmn", x]])
+                break
+    return ops, list(shadow.values())
+
+
+def gen_session_tail(rng, kind, n, n_labels, content, first_call, weighted, mk_call):
+    """edits and further calls on the same object; returns ops"""
+    ops = []
+    shadow = {ekey(kind, e): e for e in content}
+    wpool = WEIGHT_POOLS[weighted] if weighted else None
+    size = None
+    if kind == "cm":
+        p = first_call[1]
+        size = p.get("size", p["order"] + 1 if "order" in p else None)
+    for _ in range(rng.choice([1, 1, 2])):
+        if rng.random() < 0.3:
+            live = list(shadow.values())
+            e = new_edge(rng, kind, n, shadow)
+            if e is not None:
+                ops.append(["outedit", e, rng.choice(live) if rng.random() < 0.5 else None])
+        edit = rng.choices(["swap", "swap_same", "add", "rm", "fresh", "none"], [30, 25, 10, 10, 15, 10])[0]
+        live = list(shadow.values())
+        if edit in ("swap", "swap_same", "rm") and len(live) > (2 if edit == "rm" else 1):
+            cand = [e for e in live if kind == "cm" and size is not None and len(e) == size] or live
+            e = rng.choice(cand)
+            ops.append(["rm", e])
+            del shadow[ekey(kind, e)]
+        if edit in ("swap", "swap_same", "add"):
+            e = new_edge(rng, kind, n_labels if rng.random() < 0.3 else n, shadow,
+                         size if edit == "swap_same" else None)
+            if e is not None:
+                ops.append(["add", e, rng.choice(wpool) if wpool else None, None])
+                shadow[ekey(kind, e)] = e
+        if edit == "fresh":
+            # another object with other content of the same counts takes the place (the old one is dropped)
+            live = list(shadow.values())
+            if len(live) > 2:
+                e = rng.choice(live)
+                f = new_edge(rng, kind, n, shadow, len(e) if kind == "cm" else None)
+                if f is not None:
+                    del shadow[ekey(kind, e)]
+                    shadow[ekey(kind, f)] = f
+            ops.append(["fresh", list(shadow.values()), [rng.choice(wpool) for _ in shadow] if wpool else None])
+        if len(shadow) < 2:
+            break
+        r = rng.random()
+        if kind == "cm":
+            if r < 0.6:
+                params = dict(first_call[1])                 # the same request again
+            else:
+                params = gen_params(rng, list(shadow.values()))
+            if "n_steps" in params and params["n_steps"] == 0 and rng.random() < 0.7:
+                params["n_steps"] = 7
+        else:
+            params = {}
+        ops.append(mk_call(params))
+    return ops
 
 
 # ------------------------------------------------------------------------------------------
-# property oracles (the property's words, on the real objects)
+# property oracles (the property's words, on the real objects, raw labels)
 
 def oracle_undirected(E_in, E_out, detailed, size):
     """E_in, E_out: lists of node tuples as returned by get_edges(); returns list of failure texts"""
     bad = []
     S_in, S_out = {frozenset(e) for e in E_in}, {frozenset(e) for e in E_out}
-    nodes = set().union(*S_in, *S_out) if (S_in or S_out) else set()
+    nodes_in = set().union(*S_in) if S_in else set()
+    nodes = nodes_in.union(*S_out) if S_out else set(nodes_in)
     same_count = len(S_out) == len(S_in)
+    for e in E_out:
+        if len(set(e)) != len(e):
+            bad.append(f"returned hyperedge {e!r} lists a node twice")
+    for x in sorted(nodes - nodes_in, key=repr)[:2]:
+        bad.append(f"node {x!r} of the output is not a node of the input (degree 0 rose to "
+                   f"{sum(1 for e in S_out if x in e)})")
     if len(S_out) != len(E_out):
         bad.append("the returned hypergraph lists a hyperedge twice")
     if len(S_out) > len(S_in):
         bad.append(f"more hyperedges returned ({len(S_out)}) than given ({len(S_in)})")
     sizes_present = sorted({len(e) for e in S_in | S_out})
-    for x in nodes:
+    for x in sorted(nodes_in, key=repr):
         d_in, d_out = sum(1 for e in S_in if x in e), sum(1 for e in S_out if x in e)
         if d_out > d_in:
             bad.append(f"degree of node {x!r} rose from {d_in} to {d_out}")
@@ -338,14 +672,16 @@ def oracle_undirected(E_in, E_out, detailed, size):
                     bad.append(f"degree of node {x!r} at size {k} rose from {a} to {b}")
                 elif same_count and a != b:
                     bad.append(f"hyperedge count preserved but degree of node {x!r} at size {k} changed from {a} to {b}")
-    if same_count and Counter(len(e) for e in E_out) != Counter(len(e) for e in E_in):
-        bad.append("hyperedge count preserved but the multiset of hyperedge sizes changed")
+    if same_count and Counter(len(e) for e in S_out) != Counter(len(e) for e in S_in):
+        bad.append(f"hyperedge count preserved but the multiset of hyperedge sizes changed from "
+                   f"{sorted(len(e) for e in S_in)} to {sorted(len(e) for e in S_out)}")
     if size is not None:
         keep_in = {e for e in S_in if len(e) != size}
         keep_out = {e for e in S_out if len(e) != size}
         if keep_in != keep_out:
             bad.append(f"hyperedges of sizes other than {size} were not returned intact: "
-                       f"missing {sorted(map(sorted, keep_in - keep_out))[:3]}, new {sorted(map(sorted, keep_out - keep_in))[:3]}")
+                       f"missing {sorted((sorted(e, key=repr) for e in keep_in - keep_out), key=repr)[:3]}, "
+                       f"new {sorted((sorted(e, key=repr) for e in keep_out - keep_in), key=repr)[:3]}")
     return bad
 
 
@@ -353,114 +689,352 @@ def oracle_directed(E_in, E_out):
     bad = []
     S_in = {(frozenset(s), frozenset(t)) for s, t in E_in}
     S_out = {(frozenset(s), frozenset(t)) for s, t in E_out}
-    nodes = set()
-    for s, t in S_in | S_out:
-        nodes |= s | t
+    nodes_in, nodes_out = set(), set()
+    for s, t in S_in:
+        nodes_in |= s | t
+    for s, t in S_out:
+        nodes_out |= s | t
     same_count = len(S_out) == len(S_in)
+    for s, t in E_out:
+        if len(set(s)) != len(s) or len(set(t)) != len(t):
+            bad.append(f"returned hyperedge {(s, t)!r} lists a node twice on one side")
+    for x in sorted(nodes_out - nodes_in, key=repr)[:2]:
+        bad.append(f"node {x!r} of the output is not a node of the input")
     if len(S_out) != len(E_out):
         bad.append("the returned hypergraph lists a hyperedge twice")
     if len(S_out) > len(S_in):
         bad.append(f"more hyperedges returned ({len(S_out)}) than given ({len(S_in)})")
-    for x in nodes:
-        for side, name in ((0, "source-side"), (1, "target-side")):
+    for x in sorted(nodes_in | nodes_out, key=repr):
+        for side, name in ((0, "out-degree (source side)"), (1, "in-degree (target side)")):
             a = sum(1 for e in S_in if x in e[side])
             b = sum(1 for e in S_out if x in e[side])
             if b > a:
-                bad.append(f"{name} degree of node {x!r} rose from {a} to {b}")
+                bad.append(f"{name} of node {x!r} rose from {a} to {b}")
             elif same_count and a != b:
-                bad.append(f"hyperedge count preserved but {name} degree of node {x!r} changed from {a} to {b}")
-    if same_count and Counter((len(s), len(t)) for s, t in E_out) != Counter((len(s), len(t)) for s, t in E_in):
+                bad.append(f"hyperedge count preserved but {name} of node {x!r} changed from {a} to {b}")
+    if same_count and Counter((len(s), len(t)) for s, t in S_out) != Counter((len(s), len(t)) for s, t in S_in):
         bad.append("hyperedge count preserved but the multiset of (source size, target size) shapes changed")
     return bad
 
 
+def api_oracle_undirected(h, out, detailed):
+    """the same claims read through degree(node, size=k) / get_sizes() of the two objects"""
+    bad = []
+    nodes_in = set(h.get_nodes())
+    sizes_in, sizes_out = sorted(h.get_sizes()), sorted(out.get_sizes())
+    same_count = out.num_edges() == h.num_edges()
+    ks = sorted(set(sizes_in) | set(sizes_out))
+    for x in out.get_nodes():
+        d_out = out.degree(x)
+        d_in = h.degree(x) if x in nodes_in else 0
+        if d_out > d_in:
+            bad.append(f"degree({x!r}) is {d_out} in the output, {d_in} in the input")
+        elif same_count and d_out != d_in:
+            bad.append(f"num_edges preserved but degree({x!r}) changed from {d_in} to {d_out}")
+        if detailed:
+            for k in ks:
+                a = h.degree(x, size=k) if x in nodes_in else 0
+                b = out.degree(x, size=k)
+                if b > a:
+                    bad.append(f"degree({x!r}, size={k}) is {b} in the output, {a} in the input")
+                elif same_count and a != b:
+                    bad.append(f"num_edges preserved but degree({x!r}, size={k}) changed from {a} to {b}")
+    if same_count:
+        for x in nodes_in - set(out.get_nodes()):
+            if h.degree(x) != 0:
+                bad.append(f"num_edges preserved but node {x!r} of degree {h.degree(x)} is missing in the output")
+        if sizes_in != sizes_out:
+            bad.append(f"num_edges preserved but get_sizes() changed from {sizes_in} to {sizes_out}")
+    return bad
+
+
+def api_oracle_directed(h, out):
+    bad = []
+    nodes_in = set(h.get_nodes())
+    same_count = out.num_edges() == h.num_edges()
+    for x in out.get_nodes():
+        for name, f_out, f_in in (("out-degree", out.get_source_edges, h.get_source_edges),
+                                  ("in-degree", out.get_target_edges, h.get_target_edges)):
+            b = len(f_out(x))
+            a = len(f_in(x)) if x in nodes_in else 0
+            if b > a:
+                bad.append(f"{name} of {x!r} (incident-edge listing) is {b} in the output, {a} in the input")
+            elif same_count and a != b:
+                bad.append(f"num_edges preserved but {name} of {x!r} changed from {a} to {b}")
+    if same_count:
+        for x in nodes_in - set(out.get_nodes()):
+            if len(h.get_source_edges(x)) + len(h.get_target_edges(x)) != 0:
+                bad.append(f"num_edges preserved but node {x!r} is missing in the output")
+    return bad
+
+
 # ------------------------------------------------------------------------------------------
-# one undirected case
+# objects and histories
 
-def build_undirected(labels, edges, weights, iso):
-    from hypergraphx import Hypergraph
-    h = Hypergraph(weighted=weights is not None)
-    for x in iso:
-        h.add_node(x)
-    if weights is not None:
-        h.add_edges([tuple(e) for e in edges], weights=list(weights))
-    else:
-        h.add_edges([tuple(e) for e in edges])
-    return h
+class World:
+    """executes the operations of a case on real objects; `self.h` is the object the calls are applied to"""
+
+    def __init__(self, kind, labels_enc):
+        self.kind, self.enc = kind, labels_enc
+        self.h, self.others = None, []
+        self.last_out = None
+        self.salt = 0
+
+    def lab(self, i):
+        return dec_label(self.enc[i])
+
+    def nodes(self, idx, salt):
+        ns = [self.lab(i) for i in idx]
+        if len(ns) > 1 and crc(salt, idx) % 3 == 0:
+            ns = ns[1:] + ns[:1]          # the container sorts its hyperedges itself
+        return tuple(ns)
+
+    def edge(self, e):
+        self.salt += 1
+        if self.kind == "cm":
+            return self.nodes(e, self.salt)
+        return (self.nodes(e[0], self.salt), self.nodes(e[1], self.salt + 7))
+
+    def cls(self):
+        from hypergraphx import DirectedHypergraph, Hypergraph
+        return Hypergraph if self.kind == "cm" else DirectedHypergraph
+
+    def build(self, weighted, edges, ws):
+        C = self.cls()
+        if not edges:
+            return C(weighted=True) if weighted else C()
+        el = [self.edge(e) for e in edges]
+        if weighted:
+            return C(edge_list=el, weighted=True, weights=list(ws))
+        return C(edge_list=el) if crc("ctor", edges) % 2 else C(el)
+
+    def apply(self, op, obj=None):
+        h = self.h if obj is None else obj
+        k = op[0]
+        if k == "new":
+            self.h = self.build(op[1], op[2], op[3])
+        elif k == "fresh":
+            self.h = None                      # dropped before the next one exists: its id may be taken again
+            self.h = self.build(op[2] is not None, op[1], op[2])
+        elif k == "add":
+            kw = {}
+            if op[2] is not None:
+                kw["weight"] = op[2]
+            if op[3] is not None:
+                kw["metadata"] = dict(op[3])
+            h.add_edge(self.edge(op[1]), **kw)
+        elif k == "adds":
+            if op[2] is not None:
+                h.add_edges([self.edge(e) for e in op[1]], weights=list(op[2]))
+            else:
+                h.add_edges([self.edge(e) for e in op[1]])
+        elif k == "rm":
+            h.remove_edge(self.edge(op[1]))
+        elif k == "rmn":
+            x = self.lab(op[1])
+            if h.check_node(x):
+                h.remove_node(x)
+        elif k == "addn":
+            if op[2] is not None:
+                h.add_node(self.lab(op[1]), metadata=dict(op[2]))
+            else:
+                h.add_node(self.lab(op[1]))
+        elif k == "setw":
+            h.set_weight(self.edge(op[1]), op[2])
+        elif k == "meta":
+            if op[1] == "h":
+                h.set_hypergraph_metadata(dict(op[3]))
+            elif op[1] == "n":
+                x = self.lab(op[2])
+                if h.check_node(x):
+                    h.set_node_metadata(x, dict(op[3]))
+            else:
+                h.set_edge_metadata(self.edge(op[2]), dict(op[3]))
+        elif k == "copy":
+            c = h.copy()
+            if op[1] == "use_copy":
+                self.others.append(h)
+                self.h = c
+            else:
+                self.others.append(c)
+        elif k == "oth":
+            self.apply(op[1], self.others[-1])
+        elif k == "outedit":
+            # the caller edits the hypergraph a former call returned (it is the caller's object)
+            if self.last_out is not None and hasattr(self.last_out, "add_edge"):
+                try:
+                    self.last_out.add_edge(self.edge(op[1]))
+                    if op[2] is not None:
+                        self.last_out.remove_edge(self.edge(op[2]))
+                except Exception:  # noqa: BLE001 - the returned object is not the subject here
+                    pass
+        else:
+            raise ValueError("unknown op " + repr(op))
 
 
-def check_undirected(ctx, drv, case):
+def listing(kind, h):
+    if kind == "cm":
+        return [tuple(e) for e in h.get_edges()]
+    return [(tuple(s), tuple(t)) for s, t in h.get_edges()]
+
+
+# the inputs of the last cases stay alive: an address is not handed out again while the search is short, so that a
+# failing input never depends on an EARLIER case of the run (state keyed by id(): replays would not reproduce it);
+# the reuse of an address is exercised inside one case by the operation "fresh"
+_KEEP = collections.deque(maxlen=6000)
+
+
+def run_case(ctx, drv, case):
+    """executes the history of the case; every ["call", ...] in it is checked.  Returns the number of outcomes of the
+    next draw when a scripted call ran out of script (exhaustive exploration), else None"""
+    W = World(case["kind"], case["labels"])
+    _KEEP.append(W)
+    hist = case["hist"]
+    with contextlib.redirect_stdout(io.StringIO()), warnings.catch_warnings():
+        warnings.simplefilter("ignore")
+        for pos, op in enumerate(hist):
+            if op[0] != "call":
+                try:
+                    W.apply(op)
+                except Exception as e:  # noqa: BLE001
+                    ctx.disagree({**case, "hist": hist[:pos + 1]},
+                                 f"could not build the input (operation {op[0]} of the history): {type(e).__name__}: {e}")
+                    return None
+                continue
+            sub = {**case, "hist": hist[:pos + 1]}
+            if case["kind"] == "cm":
+                need = check_undirected(ctx, drv, W, sub, op)
+            else:
+                need = check_directed(ctx, drv, W, sub, op)
+            if need is not None:
+                return need
+    return None
+
+
+def model_on(ctx, drv):
+    if drv is None:
+        return False
+    if len(ctx.disagreements) >= MODEL_OFF_AFTER:
+        if not ctx.extra.get("model_comparisons_stopped"):
+            ctx.count("model_comparisons_stopped")
+        return False
+    return True
+
+
+def call_undirected(h, params, style):
     from hypergraphx.generation.configuration_model import configuration_model
-    labels, edges, weights, iso = case["labels"], [tuple(e) for e in case["edges"]], case.get("weights"), case.get("isolated", [])
-    params, mode, seed = dict(case["params"]), case["mode"], case["seed"]
+    p = dict(params)
+    if style == 1:      # everything positional
+        return configuration_model(h, p.get("n_steps", 1000), p["label"], p.get("order"), p.get("size"), 1, p["detailed"])
+    if style == 2:      # keywords, the absent one of size / order spelled as None
+        p.setdefault("size", None)
+        p.setdefault("order", None)
+        return configuration_model(hypergraph=h, **p)
+    if style == 3:      # defaults left out
+        if p["label"] == "edge":
+            del p["label"]
+        if p["detailed"] is True:
+            del p["detailed"]
+        return configuration_model(h, **p)
+    return configuration_model(h, **p)
+
+
+# ------------------------------------------------------------------------------------------
+# one undirected call
+
+def check_undirected(ctx, drv, W, case, op):
+    _, params, mode, seed, extra = op
+    extra = extra or {}
+    h = W.h
     try:
-        h = build_undirected(labels, edges, weights, iso)
-        E_in = [tuple(e) for e in h.get_edges()]
+        E_in = listing("cm", h)
     except Exception as e:  # noqa: BLE001
-        ctx.disagree(case, f"could not build the input hypergraph: {type(e).__name__}: {e}")
-        return
-    rank = {x: i for i, x in enumerate(sorted(set(labels)))}
+        ctx.disagree(case, f"could not read the input hypergraph: {type(e).__name__}: {e}")
+        return None
     size = params.get("size", params["order"] + 1 if "order" in params else None)
+    n_steps = params.get("n_steps", 1000)
+    style = crc("style", sorted(params.items()), seed) % 4
     try:
-        with NumpyDraws(mode, seed, case.get("script"), case.get("streak", 0)) as rec:
-            status, out = guarded(lambda: configuration_model(h, **params))
+        with NumpyDraws(mode, seed, extra.get("script"), extra.get("streak", 0)) as rec:
+            status, out = guarded(lambda: call_undirected(h, params, style))
     except _NeedMore as more:
         return more.nopts
-    real = None
+    E_out = None
+    W.last_out = out if status == "ok" else None
     if status == "ok":
         try:
-            E_after = [tuple(e) for e in h.get_edges()]
-            E_out = [tuple(e) for e in out.get_edges()]
-            real = sorted(tuple(rank[x] for x in e) for e in E_out)
+            E_after = listing("cm", h)
+            E_out = listing("cm", out)
         except Exception as e:  # noqa: BLE001
-            status, out = "exc", f"unreadable result: {type(e).__name__}: {e}"
+            status, out = "unreadable", f"{type(out).__name__} returned, not a readable hypergraph: {type(e).__name__}: {e}"
     ctx.count("undirected_runs")
     ctx.count("undirected_" + status)
     ctx.count("draws_recorded", len(rec.log))
+    m_sel = len([e for e in E_in if size is None or len(e) == size])
     # ---- property oracles on the implementation
     nontrivial = False
+    in_scope = len(E_in) >= 2
     if status == "ok":
-        for why in oracle_undirected(E_in, E_out, params["detailed"], size)[:3]:
+        bad = oracle_undirected(E_in, E_out, params["detailed"], size) if in_scope else []
+        if not bad and in_scope and (extra.get("api") or ctx.rng.random() < 0.5):
+            st2, bad2 = guarded(lambda: api_oracle_undirected(h, out, params["detailed"]))
+            ctx.count("api_degree_oracles")
+            bad = bad2 if st2 == "ok" else [f"degrees of the returned hypergraph cannot be read: {bad2}"]
+        for why in bad[:3]:
             ctx.violation(case, "configuration_model: " + why)
-        if sorted(E_after) != sorted(E_in):
+        if sorted(E_after, key=repr) != sorted(E_in, key=repr):
             ctx.violation(case, "configuration_model changed its input hypergraph")
         nontrivial = {frozenset(e) for e in E_out} != {frozenset(e) for e in E_in}
         if len(E_out) < len(E_in):
             ctx.count("undirected_merged_hyperedges")
         if any(len(a) != len(b) for a in E_in for b in E_in) and not params["detailed"] and nontrivial:
             ctx.count("undirected_mixed_size_reshuffles")
+    elif status in ("exc", "unreadable"):
+        if in_scope and not (m_sel == 0 and n_steps > 0 and status == "exc"):
+            # the unchanged code raises only when no hyperedge has the requested size (np.random.randint(0, 0, 2))
+            ctx.violation(case, f"configuration_model returns no hypergraph for an input with {len(E_in)} hyperedges "
+                                f"({m_sel} of the requested size): {out}")
     elif status == "timeout":
         ctx.count("timeouts")
         ctx.disagree(case, f"configuration_model did not return within {CALL_TIMEOUT:.0f} s "
                            f"({len(rec.log)} draws consumed); the model returns with probability one")
-    m_sel = len([e for e in E_in if size is None or len(e) == size])
-    key = repr((sorted(real) if real is not None else status, sorted(map(repr, E_in)), sorted(params.items()), mode, seed))
-    if mode == "script":
-        key = repr((key, case.get("script")))
-    ctx.case(key, nontrivial, sample={k: case[k] for k in ("edges", "params", "mode", "seed")})
+    rank = {dec_label(j): i for i, j in enumerate(W.enc)}
+    try:
+        E_in_r = [[rank[x] for x in e] for e in E_in]
+        real = sorted(tuple(rank[x] for x in e) for e in E_out) if E_out is not None else None
+    except (KeyError, TypeError):
+        E_in_r = real = None              # labels outside the universe: reported by the oracle above
+    if "expect" in extra and E_in_r is not None and sorted(map(sorted, extra["expect"])) != sorted(map(sorted, E_in_r)):
+        ctx.disagree(case, "the history does not lead to the content the generator intended (container behaviour, C01)")
+    key = repr((real if real is not None else status, E_in_r, sorted(params.items()), mode, seed, extra.get("script"),
+                extra.get("hkey")))
+    ctx.case(key, nontrivial, sample={"kind": "cm", "labels": case["labels"], "hist": case["hist"][-3:]})
+    ctx.count("label_kind_" + str(extra.get("lk", "?")))
     # ---- correspondence with the Lean model
-    if drv is None or status == "timeout":
-        return
+    if not model_on(ctx, drv) or status == "timeout":
+        return None
+    if E_in_r is None or (status == "ok" and real is None):
+        ctx.disagree(case, "the returned hypergraph has nodes outside the label universe of the input; no model run")
+        return None
     draws, why = rec.wire(m_sel)
     if draws is None:
         ctx.disagree(case, "draw protocol differs from the model: " + why)
-        return
+        return None
     line = "cm {} {} {} {} {} {}".format(
         "e" if params["label"] == "edge" else "s", 1 if params["detailed"] else 0,
-        -1 if size is None else size, params["n_steps"],
-        hgxv.enc_lists([[rank[x] for x in e] for e in E_in]), hgxv.enc_lists(draws))
+        -1 if size is None else size, n_steps, hgxv.enc_lists(E_in_r), hgxv.enc_lists(draws))
     ans = drv.ask(line)
-    if status == "exc":
+    if status != "ok":
         if ans != "raise":
             ctx.disagree(case, f"implementation raised ({out}); model answers {ans[:80]!r}")
-        return
+        return None
     if not ans.startswith("ok "):
         ctx.disagree(case, f"implementation returned {real}; model answers {ans!r}")
-        return
+        return None
     model = sorted(tuple(e) for e in hgxv.dec_lists(ans[3:]))
     if model != real:
         ctx.disagree(case, f"returned hyperedges differ: implementation {real}, model {model}")
-        return
+        return None
     # the model's observables (degK, deg of Model/C13.lean) are the property's degrees
     if real and ctx.rng.random() < 0.25:
         x = ctx.rng.choice(sorted({v for e in real for v in e}))
@@ -478,87 +1052,130 @@ def check_undirected(ctx, drv, case):
         if ans2 != "diverge":
             ctx.disagree(case, f"model does not need the last recorded draw (answers {ans2[:60]!r} without it)")
         ctx.count("exhaustion_probes")
+    # relabelling (C13_relabel): the same run on stretched ranks gives the stretched result
+    if ctx.rng.random() < 0.05:
+        f = lambda v: 3 * v + (v * v) % 3 + 1   # noqa: E731 - strictly increasing
+        ans3 = drv.ask("cm {} {} {} {} {} {}".format(
+            "e" if params["label"] == "edge" else "s", 1 if params["detailed"] else 0, -1 if size is None else size,
+            n_steps, hgxv.enc_lists([[f(v) for v in e] for e in E_in_r]), hgxv.enc_lists(draws)))
+        want = sorted(tuple(f(v) for v in e) for e in real)
+        got = sorted(tuple(e) for e in hgxv.dec_lists(ans3[3:])) if ans3.startswith("ok ") else ans3
+        if got != want:
+            ctx.disagree(case, f"model is not invariant under a strictly increasing relabelling: {got} vs {want}")
+        ctx.count("relabel_probes")
+    return None
 
 
 # ------------------------------------------------------------------------------------------
-# one directed case
+# one directed call
 
-def check_directed(ctx, drv, case):
-    from hypergraphx import DirectedHypergraph
+def check_directed(ctx, drv, W, case, op):
     from hypergraphx.generation.directed_configuration_model import directed_configuration_model
-    labels, iso = case["labels"], case.get("isolated", [])
-    edges = [(tuple(e[0]), tuple(e[1])) for e in case["edges"]]
-    mode, seed = case["mode"], case["seed"]
+    _, params, mode, seed, extra = op
+    extra = extra or {}
+    h = W.h
     try:
-        h = DirectedHypergraph()
-        for x in iso:
-            h.add_node(x)
-        for e in edges:
-            h.add_edge(e)
-        E_in = [(tuple(s), tuple(t)) for s, t in h.get_edges()]
+        E_in = listing("dcm", h)
     except Exception as e:  # noqa: BLE001
-        ctx.disagree(case, f"could not build the input hypergraph: {type(e).__name__}: {e}")
-        return
-    rank = {x: i for i, x in enumerate(sorted(set(labels)))}
+        ctx.disagree(case, f"could not read the input hypergraph: {type(e).__name__}: {e}")
+        return None
+    kw = crc("style", seed) % 3 == 0
     with PyDraws(mode, seed) as rec:
-        status, out = guarded(lambda: directed_configuration_model(h))
-    real = None
+        status, out = guarded(lambda: directed_configuration_model(hypergraph=h) if kw else directed_configuration_model(h))
+    E_out = None
+    W.last_out = out if status == "ok" else None
     if status == "ok":
         try:
-            E_after = [(tuple(s), tuple(t)) for s, t in h.get_edges()]
-            E_out = [(tuple(s), tuple(t)) for s, t in out.get_edges()]
-            real = sorted((tuple(rank[x] for x in s), tuple(rank[x] for x in t)) for s, t in E_out)
+            E_after = listing("dcm", h)
+            E_out = listing("dcm", out)
         except Exception as e:  # noqa: BLE001
-            status, out = "exc", f"unreadable result: {type(e).__name__}: {e}"
+            status, out = "unreadable", f"{type(out).__name__} returned, not a readable hypergraph: {type(e).__name__}: {e}"
     ctx.count("directed_runs")
     ctx.count("directed_" + status)
     ctx.count("draws_recorded", len(rec.log))
     nontrivial = False
+    in_scope = len(E_in) >= 2
+    empty_side = any(len(s) == 0 or len(t) == 0 for s, t in E_in)
     if status == "ok":
-        for why in oracle_directed(E_in, E_out)[:3]:
+        bad = oracle_directed(E_in, E_out) if in_scope else []
+        if not bad and in_scope and (extra.get("api") or ctx.rng.random() < 0.5):
+            st2, bad2 = guarded(lambda: api_oracle_directed(h, out))
+            ctx.count("api_degree_oracles")
+            bad = bad2 if st2 == "ok" else [f"degrees of the returned hypergraph cannot be read: {bad2}"]
+        for why in bad[:3]:
             ctx.violation(case, "directed_configuration_model: " + why)
-        if sorted(E_after) != sorted(E_in):
+        if sorted(E_after, key=repr) != sorted(E_in, key=repr):
             ctx.violation(case, "directed_configuration_model changed its input hypergraph")
         nontrivial = set(E_out) != set(E_in)
         if len(E_out) < len(E_in):
             ctx.count("directed_merged_hyperedges")
+    elif status in ("exc", "unreadable"):
+        if in_scope and not (empty_side and status == "exc"):
+            # the unchanged code raises only when a hyperedge with an empty side is drawn (random.choice([]))
+            ctx.violation(case, f"directed_configuration_model returns no hypergraph for an input with {len(E_in)} "
+                                f"hyperedges, all sides non-empty: {out}")
     elif status == "timeout":
         ctx.count("timeouts")
         ctx.disagree(case, f"directed_configuration_model did not return within {CALL_TIMEOUT:.0f} s; it has no unbounded loop")
-    key = repr((real if real is not None else status, sorted(map(repr, E_in)), mode, seed))
-    ctx.case(key, nontrivial, sample={k: case[k] for k in ("edges", "mode", "seed")})
-    if drv is None or status == "timeout":
-        return
+    rank = {dec_label(j): i for i, j in enumerate(W.enc)}
+    try:
+        E_in_r = [([rank[x] for x in s], [rank[x] for x in t]) for s, t in E_in]
+        real = (sorted((tuple(rank[x] for x in s), tuple(rank[x] for x in t)) for s, t in E_out)
+                if E_out is not None else None)
+    except (KeyError, TypeError):
+        E_in_r = real = None
+    key = repr((real if real is not None else status, E_in_r, mode, seed, extra.get("hkey")))
+    ctx.case(key, nontrivial, sample={"kind": "dcm", "labels": case["labels"], "hist": case["hist"][-3:]})
+    ctx.count("label_kind_" + str(extra.get("lk", "?")))
+    if not model_on(ctx, drv) or status == "timeout":
+        return None
+    if E_in_r is None or (status == "ok" and real is None):
+        ctx.disagree(case, "the returned hypergraph has nodes outside the label universe of the input; no model run")
+        return None
     draws, why = rec.wire(len(E_in))
     if draws is None:
         ctx.disagree(case, "draw protocol differs from the model: " + why)
-        return
-    line = "dcm {} {} {}".format(hgxv.enc_lists([[rank[x] for x in s] for s, _ in E_in]),
-                                 hgxv.enc_lists([[rank[x] for x in t] for _, t in E_in]), hgxv.enc_list(draws))
+        return None
+    line = "dcm {} {} {}".format(hgxv.enc_lists([s for s, _ in E_in_r]), hgxv.enc_lists([t for _, t in E_in_r]),
+                                 hgxv.enc_list(draws))
     ans = drv.ask(line)
-    if status == "exc":
+    if status != "ok":
         if ans != "raise":
             ctx.disagree(case, f"implementation raised ({out}); model answers {ans[:80]!r}")
-        return
+        return None
     toks = ans.split(" ")
     if toks[0] != "ok" or len(toks) != 3:
         ctx.disagree(case, f"implementation returned {real}; model answers {ans!r}")
-        return
+        return None
     model = sorted(zip((tuple(s) for s in hgxv.dec_lists(toks[1])), (tuple(t) for t in hgxv.dec_lists(toks[2]))))
     if model != real:
         ctx.disagree(case, f"returned hyperedges differ: implementation {real}, model {model}")
+        return None
+    if ctx.rng.random() < 0.05:
+        f = lambda v: 3 * v + (v * v) % 3 + 1   # noqa: E731 - strictly increasing
+        ans3 = drv.ask("dcm {} {} {}".format(hgxv.enc_lists([[f(v) for v in s] for s, _ in E_in_r]),
+                                             hgxv.enc_lists([[f(v) for v in t] for _, t in E_in_r]), hgxv.enc_list(draws)))
+        t3 = ans3.split(" ")
+        want = sorted((tuple(f(v) for v in s), tuple(f(v) for v in t)) for s, t in real)
+        got = (sorted(zip((tuple(s) for s in hgxv.dec_lists(t3[1])), (tuple(t) for t in hgxv.dec_lists(t3[2]))))
+               if t3[0] == "ok" and len(t3) == 3 else ans3)
+        if got != want:
+            ctx.disagree(case, f"model is not invariant under a strictly increasing relabelling: {got} vs {want}")
+        ctx.count("relabel_probes")
+    return None
 
 
 # ------------------------------------------------------------------------------------------
 
-def explore_undirected(ctx, drv, base, max_nodes, max_depth):
+def explore_undirected(ctx, drv, base, params, max_nodes, max_depth):
     """walk the tree of ALL draw outcomes of the real code for one small input: the scripted source
     aborts the run at the first draw beyond the script and reports how many outcomes that draw has"""
     stack, nodes = [[]], 0
     while stack and nodes < max_nodes and not out_of_time(ctx):
         script = stack.pop()
         nodes += 1
-        need = check_undirected(ctx, drv, {**base, "mode": "script", "script": script, "seed": 0})
+        case = {**base, "hist": base["hist"] + [["call", params, "script", 0, {"script": script, "lk": base.get("lk")}]]}
+        need = run_case(ctx, drv, case)
         if need is None:
             ctx.count("exhaustive_leaves")
         elif len(script) >= max_depth:
@@ -573,70 +1190,98 @@ def explore_undirected(ctx, drv, base, max_nodes, max_depth):
 
 def gen_small(rng):
     n = rng.randint(3, 5)
-    labels = gen_labels(rng, n)
     m = rng.choice([2, 2, 3])
     edges, seen = [], set()
     while len(edges) < m:
-        e = tuple(sorted(rng.sample(labels, rng.choice([1, 2, 2, 3]))))
+        if edges and rng.random() < 0.35 and len(edges[-1]) >= 2:
+            e = tuple(sorted(rng.sample(edges[-1], rng.randint(1, len(edges[-1]) - 1))))   # nested, listed second
+        else:
+            e = tuple(sorted(rng.sample(range(n), rng.choice([1, 2, 2, 3]))))
         if e not in seen:
             seen.add(e)
             edges.append(e)
+    if rng.random() < 0.5:
+        rng.shuffle(edges)
+    edges = [list(e) for e in edges]
     params = gen_params(rng, edges)
     params["n_steps"] = 1 if m == 3 else rng.choice([1, 2])
-    return labels, edges, params
+    return n, edges, params
 
 
 def out_of_time(ctx):
-    # keep searching for a failing input of the property after the correspondence broke
-    return len(ctx.violations) >= 3 or len(ctx.disagreements) >= 60 or ctx.extra.get("timeouts", 0) >= 2 or (ctx.time_left() is not None and ctx.time_left() < 8)
+    # the search for a failing input of the property goes on after the correspondence broke
+    return len(ctx.violations) >= 3 or ctx.extra.get("timeouts", 0) >= 2 or (ctx.time_left() is not None and ctx.time_left() < 8)
+
+
+def weighted_kind(rng):
+    return rng.choice(list(WEIGHT_POOLS)) if rng.random() < 0.3 else None
 
 
 def run(ctx):
     hgxv.use_repo()
     drv = ctx.driver() if ctx.model_available else None
     rng = ctx.rng
-    n_inputs = ctx.scale(2000, 40000)
+    n_inputs = ctx.scale(2200, 36000)
     per_input = ctx.scale(3, 6)
     n_trees = ctx.scale(10, 300)
     for it in range(n_inputs):
         if out_of_time(ctx):
             break
         if it % max(1, n_inputs // n_trees) == 0:
-            labels, edges, params = gen_small(rng)
-            explore_undirected(ctx, drv, {"kind": "cm", "labels": labels, "edges": edges, "weights": None,
-                                          "isolated": [], "params": params}, ctx.scale(1500, 6000), 9)
+            n, edges, params = gen_small(rng)
+            lk, labels = gen_labels(rng, n + 1)
+            wk = weighted_kind(rng)
+            hist, _ = gen_history(rng, "cm", n, n + 1, edges, wk)
+            explore_undirected(ctx, drv, {"kind": "cm", "labels": labels, "hist": hist, "lk": lk}, params,
+                               ctx.scale(1500, 6000), 9)
         if it % 97 == 5:
             # very size-heterogeneous input (all sizes different), detailed, with a long streak of inadmissible pairs
             k = rng.randint(3, 6)
-            labels = gen_labels(rng, k + 1)
-            edges = [tuple(sorted(rng.sample(labels, sz))) for sz in range(1, k + 1)]
+            lk, labels = gen_labels(rng, k + 1)
+            edges = [sorted(rng.sample(range(k + 1), sz)) for sz in range(1, k + 1)]
             rng.shuffle(edges)
-            case = {"kind": "cm", "labels": labels, "edges": edges, "weights": None, "isolated": [],
-                    "params": {"n_steps": rng.choice([1, 3]), "label": rng.choice(["edge", "stub"]), "detailed": True},
-                    "mode": "adv", "seed": rng.randrange(2 ** 31), "streak": rng.choice([55, 130, 300])}
+            hist, _ = gen_history(rng, "cm", k + 1, k + 1, edges, weighted_kind(rng))
+            call = ["call", {"n_steps": rng.choice([1, 3]), "label": rng.choice(["edge", "stub"]), "detailed": True},
+                    "adv", rng.randrange(2 ** 31), {"streak": rng.choice([55, 130, 300]), "lk": lk}]
             ctx.count("heterogeneous_streak_cases")
-            check_undirected(ctx, drv, case)
-        if it % 4 != 3:
-            labels, edges, weights, iso = gen_undirected(rng)
-            params = gen_params(rng, edges)
-            for _ in range(per_input):
-                case = {"kind": "cm", "labels": labels, "edges": edges, "weights": weights, "isolated": iso,
-                        "params": params, "mode": rng.choice(["real", "adv"]), "seed": rng.randrange(2 ** 31)}
-                check_undirected(ctx, drv, case)
-                if params["n_steps"] == 0:
-                    break
-        else:
-            labels, edges, iso = gen_directed(rng)
-            for _ in range(per_input):
-                case = {"kind": "dcm", "labels": labels, "edges": edges, "isolated": iso,
-                        "mode": rng.choice(["real", "adv"]), "seed": rng.randrange(2 ** 31)}
-                check_directed(ctx, drv, case)
+            run_case(ctx, drv, {"kind": "cm", "labels": labels, "hist": hist + [call]})
+        kind = "cm" if it % 4 != 3 else "dcm"
+        n = rng.randint(3, 10 if kind == "cm" else 9)
+        n_labels = n + rng.choice([0, 1, 2])
+        lk, labels = gen_labels(rng, n_labels)
+        target = gen_undirected(rng, n) if kind == "cm" else gen_directed(rng, n)
+        wk = weighted_kind(rng)
+        hist, content = gen_history(rng, kind, n, n_labels, target, wk)
+        hkey = crc(hist) if len(hist) > 2 else None
+        params = gen_params(rng, target) if kind == "cm" else {}
+        expect = sorted(sorted(e) for e in content) if kind == "cm" else None
+        ctx.count("histories_" + ("plain" if not any(o[0] in ("rm", "rmn", "copy") for o in hist) else
+                                  "copy" if any(o[0] == "copy" for o in hist) else "gaps"))
+        if wk:
+            ctx.count("weighted_inputs_" + kind)
+
+        def mk_call(p, first=False):
+            ex = {"lk": lk, "hkey": hkey}
+            if first and expect is not None:
+                ex["expect"] = expect
+            return ["call", p, rng.choice(["real", "adv"]), rng.randrange(2 ** 31), ex]
+
+        if rng.random() < 0.25:
+            first = mk_call(params, True)
+            tail = gen_session_tail(rng, kind, n, n_labels, content, first, wk, mk_call)
+            ctx.count("sessions")
+            run_case(ctx, drv, {"kind": kind, "labels": labels, "hist": hist + [first] + tail})
+            continue
+        for _ in range(per_input):
+            run_case(ctx, drv, {"kind": kind, "labels": labels, "hist": hist + [mk_call(params, True)]})
+            if kind == "cm" and params.get("n_steps") == 0:
+                break
 
 
 def replay(ctx, case):
     hgxv.use_repo()
     drv = ctx.driver() if ctx.model_available else None
-    if case.get("kind") == "dcm":
-        check_directed(ctx, drv, case)
-    else:
-        check_undirected(ctx, drv, case)
+    for op in case["hist"]:
+        if op[0] == "call":
+            op[4] = {**(op[4] or {}), "api": True}
+    run_case(ctx, drv, case)
